@@ -37,9 +37,27 @@ def geneRegion (r : Iv) (as : List Aln) : Iv :=
 def loadRegion (repaired : Bool) (ra : Iv × List Aln) : Iv :=
   if repaired then geneRegion ra.1 ra.2 else ra.1
 
-/-- `genedb.region(start, end, featuretype="gene")`: the genes overlapping the region -/
+/-- the 1-based closed interval of an alignment (`reference_start + 1 .. reference_end`), the coordinates of gene records -/
+def iv1 (a : Aln) : Iv := (a.start + 1, a.stop)
+
+/-- `get_gene_info_for_region` after fix `fix_gene_query_last_base`: the region is a closed interval of 0-based positions, the
+    gene records are 1-based: `genedb.region(start = region[0] + 1, end = region[1] + 1, featuretype="gene")` -/
 def loadGenes (genes : List GeneRec) (gr : Iv) : List GeneRec :=
+  genes.filter (fun g => overlaps (gr.1 + 1, gr.2 + 1) g.span)
+
+/-- the query before that fix: the 0-based region compared with the 1-based gene records as it is (a gene whose first base
+    is the last base of the region is missed, a gene whose last base is the base before the region is loaded) -/
+def loadGenesOrig (genes : List GeneRec) (gr : Iv) : List GeneRec :=
   genes.filter (fun g => overlaps gr g.span)
+
+/-- the records `process_genic` / `process_intergenic` never assign (reference_id -1, supplementary, `--no_secondary`
+    secondaries, MAPQ < `--min_mapq`: `Regions.passes`) get no record and - after fix 48f2521-stretch-only-over-processed -
+    do not stretch the gene region: what a sub-region works on is its forwarded list filtered -/
+def procOut (p : Regions.Params) (out : List (Iv × List Aln)) : List (Iv × List Aln) :=
+  out.map (fun ra => (ra.1, ra.2.filter (Regions.passes p)))
+
+/-- the gene region of a sub-region BEFORE that fix: stretched over every forwarded record, assigned or not -/
+def loadRegionAll (ra : Iv × List Aln) : Iv := geneRegion ra.1 ra.2
 
 /-- what `process_genic` / `process_intergenic` derive for ONE alignment from the loaded genes (heuristics not modelled here) -/
 structure Proc where
@@ -129,5 +147,38 @@ def tableProc (chr : String) (ans : Answers) : Proc :=
                pmap := ms.map (fun m => { id := 0, chr := chr, start := m.2.1.1, stop := m.2.1.2, strand := "+", ftype := "I",
                                           genes := [] }),
                group := "NA" } }
+
+/-! ### the REAL per-alignment profile work as a `Proc` (closure `p13local`): `GeneInfo(gene_list, …)` of the loaded genes,
+    `construct_exon_profile` / `construct_intron_profile` of the alignment's blocks against it, `set_feature_properties` -/
+
+/-- the annotation and the reads of one chromosome as `process_genic` sees them: per gene id the isoforms (feats = exon blocks),
+    per read id the blocks / polyA positions / read group -/
+structure Ann where
+  chr : String
+  delta : Int
+  absDelta : Int                         -- minimal_intron_absence_overlap
+  isoforms : Nat → List IsoformFeatures
+  reads : Nat → ReadAln
+
+/-- `GeneInfo.start / end` of a gene list: the hull of the gene records -/
+def hull : List GeneRec → Iv
+  | [] => (0, 0)
+  | g :: r => r.foldl (fun h x => (min h.1 x.span.1, max h.2 x.span.2)) g.span
+
+/-- the `GeneIn` of the loaded genes -/
+def geneIn (A : Ann) (G : List GeneRec) : GeneIn :=
+  { region := hull G, isoforms := G.flatMap (fun g => A.isoforms g.gid) }
+
+/-- `process_alignments_in_region`: no gene loaded = `process_intergenic`, no gene profile (`None`: the counters skip the read);
+    else the exon event of `process_genic` against the GeneInfo of the loaded genes -/
+def exonEv (A : Ann) (G : List GeneRec) (a : Aln) : Option ReadEv :=
+  if G.isEmpty then none else exonEvent (mkGene A.chr A.delta 0 (geneIn A G)).1 (A.reads a.rid)
+
+def intronEv (A : Ann) (G : List GeneRec) (a : Aln) : Option ReadEv :=
+  if G.isEmpty then none else intronEvent (mkGene A.chr A.delta 0 (geneIn A G)).1 A.absDelta (A.reads a.rid)
+
+/-- the table-driven assigner answers with the real exon (intron) profile event -/
+def exonProc (A : Ann) (ans : Answers) : Proc := { tableProc A.chr ans with ev := exonEv A }
+def intronProc (A : Ann) (ans : Answers) : Proc := { tableProc A.chr ans with ev := intronEv A }
 
 end IsoVerif.Model.C13Chr
